@@ -204,8 +204,16 @@ func genFaults(thorough bool) []Case {
 		// second `configure terminal` hangs
 		mk(map[string][]string{"configure terminal": {"configure terminal\n" + prompt, "configure terminal\n"}}),
 	}
+	// write memory: busy once, then ok (one sleep of 3 s in the real code): the retry loop
+	l = append(l, mk(map[string][]string{"write memory": {"write memory\nstartup-config file open failed (Device or resource busy)\n" + prompt,
+		"write memory\nBuilding configuration...\n[OK]\n" + prompt}}))
 	if thorough {
 		l = append(l,
+			// busy, then the overwrite question, then ok
+			mk(map[string][]string{"write memory": {"write memory\nstartup-config file open failed (Device or resource busy)\n" + prompt,
+				"write memory\nOverwrite the previous NVRAM configuration?[confirm]<!>Building configuration...\n[OK]\n" + prompt}}),
+			// busy once and a rejected change: no write at all
+			mk(map[string][]string{"write memory": {"write memory\nstartup-config file open failed (Device or resource busy)\n" + prompt}}, "failed\n"),
 			// write memory: busy twice, then ok (two sleeps of 3 s in the real code)
 			mk(map[string][]string{"write memory": {"write memory\nstartup-config file open failed (Device or resource busy)\n" + prompt,
 				"write memory\nstartup-config file open failed (Device or resource busy)\n" + prompt,
@@ -430,9 +438,24 @@ func genMulti(thorough bool) []Case {
 			Special:         map[string][]string{"sh run": {cfg(bannerText(pr[0]), bannerText(pr[1]))}},
 			SpecialIsBanner: "multi", Multi: &Multi{Line: "sh run", Shape: "shrun-plain", Msgs: []string{pr[0], pr[1]}}})
 		// the same with a fresh prompt after each banner (logging synchronous of an earlier session)
-		cases = append(cases, Case{Device: ldev, Target: ltgt, Behav: map[string]Behav{},
+		cases = append(cases, Case{Device: ldev, Target: ltgt, Behav: map[string]Behav{}, SeenDevice: ldev[:40],
 			Special:         map[string][]string{"sh run": {cfg(bannerText(pr[0])+"\n"+prompt, bannerText(pr[1])+"\n"+prompt)}},
 			SpecialIsBanner: "multi", Multi: &Multi{Line: "sh run", Shape: "shrun-prompt", Msgs: []string{pr[0], pr[1]}}})
+	}
+	return cases
+}
+
+// ---------------------------------------------------------------- login / enable dialogue
+
+// genLogin: every variant of the login dialogue, without banner and with a one-minute banner on a change
+func genLogin() []Case {
+	var cases []Case
+	dev, tgt := buildBase("ar")
+	lines := physLines(dev, tgt)
+	for _, v := range []string{"enable-pw", "enable-nopw", "hostkey", "denied", "wrong-pw"} {
+		cases = append(cases, Case{Device: dev, Target: tgt, Behav: map[string]Behav{}, Login: v})
+		cases = append(cases, Case{Device: dev, Target: tgt, Login: v, NoAsk: true,
+			Behav: map[string]Behav{lines[1]: {Form: "B", Off: 3, Msg: msg1}}})
 	}
 	return cases
 }
